@@ -24,7 +24,8 @@ CONSTANTS ThreadsC,  \* set of threads
           InitEv,    \* sequence of initial events [lp, t, ty, pid] (scheduled by LP_INIT of .src)
           Trans,     \* Trans[s+1][ty] = [ns, sends]; sends: seq of [off, delay, ty, pid] (destination = me + off); types 1..
           MaxMsg,    \* size of the message pool (ids 1..MaxMsg, recycled smallest first)
-          CkptEvery  \* checkpoint interval (events)
+          CkptEvery, \* checkpoint interval (events)
+          MaxGvt     \* number of GVT values handed out (0: no GVT, no fossil collection); a value is any safe lower bound
 
 VARIABLES msg, hist, base, ckpt, owner, rb, cpos, cheld, termT, gvtSeen, gvtCnt, gvtVals, finiLp, finiQ, votes,
           stopped, exited, hand, voted, maxDecl, mustVote, announced, net, rx, lastNm, early,
@@ -33,16 +34,17 @@ VARIABLES msg, hist, base, ckpt, owner, rb, cpos, cheld, termT, gvtSeen, gvtCnt,
           lpst,   \* lp -> abstract model state [s, cnt]
           snap,   \* lp -> model states saved by the checkpoints (aligned with ckpt[lp])
           crem,   \* lp -> events until the next checkpoint
+          fneed,  \* lp -> a GVT arrived since the last fossil collection of the LP (fossil_is_needed)
           err     \* a property check of an action failed: <<property, label>>
 
 TW == INSTANCE TimeWarp WITH Threads <- ThreadsC, NLp <- NLpC, Inf <- 1000000
 twvars == <<msg, hist, base, ckpt, owner, rb, cpos, cheld, termT, gvtSeen, gvtCnt, gvtVals, finiLp, finiQ, votes,
             stopped, exited, hand, voted, maxDecl, mustVote, announced, net, rx, lastNm, early>>
-mcvars == <<pc, loc, lpst, snap, crem, err>>
+mcvars == <<pc, loc, lpst, snap, crem, fneed, err>>
 vars == <<twvars, mcvars>>
 
 LPs == 0..(NLpC - 1)
-NoLoc == [lp |-> -1, m |-> 0, old |-> 0, past |-> 0, i |-> 0, sends |-> <<>>, after |-> "none", t |-> 0]
+NoLoc == [lp |-> -1, m |-> 0, old |-> 0, past |-> 0, i |-> 0, sends |-> <<>>, after |-> "none", t |-> 0, fl |-> <<>>]
 Ghost(st) == [s |-> st.s, cnt |-> st.cnt, a |-> 0, b |-> 0, blk |-> 0]
 
 \* the event order (src/lp/msg.h): smaller time, then LARGER type, then smaller payload id
@@ -64,6 +66,7 @@ Init ==
   /\ lpst = [p \in LPs |-> [s |-> 0, cnt |-> 0]]
   /\ snap = [p \in LPs |-> <<>>]
   /\ crem = [p \in LPs |-> 0]
+  /\ fneed = [p \in LPs |-> FALSE]
   /\ err = <<>>
 
 \* process_lp_init: the LP_INIT handler runs first and schedules the initial events of the LP (recorded in its
@@ -73,7 +76,7 @@ InitStart(r) ==
   /\ pc[r] = "init" /\ NextInitLp(r) # {}
   /\ LET p == TW!Min(NextInitLp(r)) IN
        Goto(r, "sched", [NoLoc EXCEPT !.sends = SelectSeq(InitEv, LAMBDA e : e.src = p), !.after = "initlp", !.lp = p])
-  /\ UNCHANGED <<twvars, lpst, snap, crem, err>>
+  /\ UNCHANGED <<twvars, lpst, snap, crem, fneed, err>>
 InitLp(r) ==
   /\ pc[r] = "initlp" /\ PoolOk
   /\ LET p == loc[r].lp
@@ -86,13 +89,13 @@ InitLp(r) ==
      /\ snap' = [snap EXCEPT ![p] = <<lpst[p]>>]
   /\ Goto(r, "init", NoLoc)
   /\ UNCHANGED <<base, rb, cpos, cheld, termT, gvtSeen, gvtCnt, gvtVals, finiLp, finiQ, votes, stopped, exited, hand, voted, maxDecl,
-                 mustVote, announced, net, rx, lastNm, early, lpst, crem, err>>
+                 mustVote, announced, net, rx, lastNm, early, lpst, crem, fneed, err>>
 \* barrier after lp_init: the main loop starts once every LP exists
 AllInited == \A p \in LPs : owner[p] # -1
 InitDone(r) ==
   /\ pc[r] = "init" /\ NextInitLp(r) = {} /\ AllInited
   /\ Goto(r, "idle", NoLoc)
-  /\ UNCHANGED <<twvars, lpst, snap, crem, err>>
+  /\ UNCHANGED <<twvars, lpst, snap, crem, fneed, err>>
 
 (* ---------------- ScheduleNewEvent: alloc, CAS push (shared), record in the sender's history ---------------- *)
 SchedAlloc(r) ==
@@ -100,24 +103,24 @@ SchedAlloc(r) ==
   /\ LET m == FreeId IN
      /\ Do(TW!AllocChecks(r, m), TW!Alloc(r, m))
      /\ Goto(r, "push", [loc[r] EXCEPT !.m = m])
-  /\ UNCHANGED <<lpst, snap, crem>>
+  /\ UNCHANGED <<lpst, snap, crem, fneed>>
 SchedPush(r) ==
   /\ pc[r] = "push"
   /\ LET e == Head(loc[r].sends)
          c == [lp |-> e.lp, t |-> e.t, ty |-> e.ty, pid |-> e.pid] IN
      /\ Do(TW!PushChecks(r, loc[r].m, OwnerOf[e.lp], c), TW!Push(r, loc[r].m, OwnerOf[e.lp], c))
      /\ Goto(r, "sent", loc[r])
-  /\ UNCHANGED <<lpst, snap, crem>>
+  /\ UNCHANGED <<lpst, snap, crem, fneed>>
 SchedSent(r) ==
   /\ pc[r] = "sent"
   /\ LET e == Head(loc[r].sends) IN
      /\ Do(TW!SendChecks(r, e.src, loc[r].m), TW!Send(r, e.src, loc[r].m))
      /\ Goto(r, "sched", [loc[r] EXCEPT !.sends = Tail(@), !.m = 0])
-  /\ UNCHANGED <<lpst, snap, crem>>
+  /\ UNCHANGED <<lpst, snap, crem, fneed>>
 SchedEnd(r) ==
   /\ pc[r] = "sched" /\ loc[r].sends = <<>>
   /\ Goto(r, loc[r].after, [loc[r] EXCEPT !.after = "none"])
-  /\ UNCHANGED <<twvars, lpst, snap, crem, err>>
+  /\ UNCHANGED <<twvars, lpst, snap, crem, fneed, err>>
 
 (* ---------------- process_msg ---------------- *)
 \* msg_queue_extract: exchange of the inbox (shared), then pop the minimum of the private heap
@@ -125,7 +128,7 @@ DrainStep(r) ==
   /\ pc[r] = "idle" /\ TW!InboxOf(r) # {}
   /\ Do(TW!DrainChecks(r, Cardinality(TW!InboxOf(r))), TW!Drain(r, Cardinality(TW!InboxOf(r))))
   /\ Goto(r, "pop", NoLoc)
-  /\ UNCHANGED <<lpst, snap, crem>>
+  /\ UNCHANGED <<lpst, snap, crem, fneed>>
 EvOf(m) == [t |-> msg[m].t, ty |-> msg[m].ty, pid |-> msg[m].pid]
 \* q_elem_is_before: anti-messages first at equal time, then the content order
 QBefore(a, b) ==
@@ -138,9 +141,9 @@ PopStep(r) ==
   /\ \E m \in TW!HeapOf(r) :
        /\ \A x \in TW!HeapOf(r) : ~QBefore(x, m)
        /\ Do(TW!ExtractChecks(r, m), TW!Extract(r, m))
-       /\ Goto(r, "flag", [NoLoc EXCEPT !.m = m, !.lp = msg[m].lp])
-  /\ UNCHANGED <<lpst, snap, crem>>
-PopNone(r) == pc[r] = "pop" /\ TW!HeapOf(r) = {} /\ Goto(r, "idle", NoLoc) /\ UNCHANGED <<twvars, lpst, snap, crem, err>>
+       /\ Goto(r, IF fneed[msg[m].lp] THEN "fossil" ELSE "flag", [NoLoc EXCEPT !.m = m, !.lp = msg[m].lp])
+  /\ UNCHANGED <<lpst, snap, crem, fneed>>
+PopNone(r) == pc[r] = "pop" /\ TW!HeapOf(r) = {} /\ Goto(r, "idle", NoLoc) /\ UNCHANGED <<twvars, lpst, snap, crem, fneed, err>>
 
 \* index arithmetic of match_straggler_msg / match_anti_msg (0-based C indexes; entry j of hist is C index j-1)
 RECURSIVE MS(_, _, _)
@@ -166,20 +169,20 @@ FlagStep(r) ==
         ELSE IF hist[p] # <<>> /\ Before(EvOf(m), [t |-> LastE(p).t, ty |-> LastE(p).ty, pid |-> LastE(p).pid])
              THEN Goto(r, "rbbegin", [loc[r] EXCEPT !.past = MatchStraggler(p, m), !.after = "exec", !.t = msg[m].t])
              ELSE Goto(r, "exec", loc[r])
-  /\ UNCHANGED <<lpst, snap, crem>>
+  /\ UNCHANGED <<lpst, snap, crem, fneed>>
 
 FreeStep(r) ==
   /\ pc[r] = "free"
   /\ Do(TW!FreeChecks(r, loc[r].m), TW!Free(r, loc[r].m))
   /\ Goto(r, "idle", NoLoc)
-  /\ UNCHANGED <<lpst, snap, crem>>
+  /\ UNCHANGED <<lpst, snap, crem, fneed>>
 
 (* ---------------- do_rollback ---------------- *)
 RbBeginStep(r) ==
   /\ pc[r] = "rbbegin"
   /\ Do(TW!RbBeginChecks(r, loc[r].lp, loc[r].past), TW!RbBegin(r, loc[r].lp, loc[r].past))
   /\ Goto(r, "rbloop", [loc[r] EXCEPT !.i = loc[r].past + 1])
-  /\ UNCHANGED <<lpst, snap, crem>>
+  /\ UNCHANGED <<lpst, snap, crem, fneed>>
 \* send_anti_messages: one shared access per entry, then (when due) the re-insertion
 RbEntry(r) ==
   /\ pc[r] = "rbloop" /\ loc[r].i <= Len(hist[loc[r].lp])
@@ -190,14 +193,14 @@ RbEntry(r) ==
           /\ IF TW!AntiNeedsInsert(f) THEN Goto(r, "rbins", [loc[r] EXCEPT !.m = e.m]) ELSE Goto(r, "rbloop", [loc[r] EXCEPT !.i = @ + 1])
      ELSE /\ Do(TW!UndoChecks(r, e.m, f), TW!Undo(r, e.m, f))
           /\ IF TW!UndoNeedsInsert(f) THEN Goto(r, "rbins", [loc[r] EXCEPT !.m = e.m]) ELSE Goto(r, "rbloop", [loc[r] EXCEPT !.i = @ + 1])
-  /\ UNCHANGED <<lpst, snap, crem>>
+  /\ UNCHANGED <<lpst, snap, crem, fneed>>
 RbInsert(r) ==
   /\ pc[r] = "rbins"
   /\ LET m == loc[r].m
          c == [lp |-> msg[m].lp, t |-> msg[m].t, ty |-> msg[m].ty, pid |-> msg[m].pid] IN
      Do(TW!PushChecks(r, m, OwnerOf[msg[m].lp], c), TW!Push(r, m, OwnerOf[msg[m].lp], c))
   /\ Goto(r, "rbloop", [loc[r] EXCEPT !.i = @ + 1, !.m = hand[r]])
-  /\ UNCHANGED <<lpst, snap, crem>>
+  /\ UNCHANGED <<lpst, snap, crem, fneed>>
 \* model_allocator_checkpoint_restore + silent_execution: newest checkpoint not after `past', coast forward
 NewestCk(p, past) == TW!Max({k \in 1..Len(ckpt[p]) : ckpt[p][k].ref <= past})
 RECURSIVE Coast(_, _, _, _)
@@ -215,12 +218,12 @@ RbRestore(r) ==
      /\ lpst' = [lpst EXCEPT ![p] = Coast(p, snap[p][k], last, past)]
      /\ snap' = [snap EXCEPT ![p] = SubSeq(@, 1, k)]
      /\ crem' = [crem EXCEPT ![p] = 0]
-  /\ Goto(r, "rbend", loc[r])
+  /\ Goto(r, "rbend", loc[r]) /\ UNCHANGED fneed
 RbEndStep(r) ==
   /\ pc[r] = "rbend"
   /\ Do(TW!RbEndChecks(r, loc[r].lp, Ghost(lpst[loc[r].lp]), 0, 0), TW!RbEnd(r, loc[r].lp, Ghost(lpst[loc[r].lp])))
   /\ Goto(r, loc[r].after, [loc[r] EXCEPT !.m = hand[r]])
-  /\ UNCHANGED <<lpst, snap, crem>>
+  /\ UNCHANGED <<lpst, snap, crem, fneed>>
 
 (* ---------------- forward execution ---------------- *)
 ExecStep(r) ==
@@ -234,7 +237,7 @@ ExecStep(r) ==
      /\ lpst' = [lpst EXCEPT ![p] = ns]
      \* the handler runs first and schedules its events; the event itself is pushed to the history afterwards
      /\ Goto(r, "sched", [loc[r] EXCEPT !.sends = sends, !.after = "execdone"])
-  /\ UNCHANGED <<twvars, snap, crem, err>>
+  /\ UNCHANGED <<twvars, snap, crem, fneed, err>>
 ExecDone(r) ==
   /\ pc[r] = "execdone"
   /\ LET p == loc[r].lp
@@ -243,34 +246,14 @@ ExecDone(r) ==
      /\ IF crem[p] + 1 >= CkptEvery
         THEN Goto(r, "ckpt", loc[r]) /\ crem' = [crem EXCEPT ![p] = 0]
         ELSE Goto(r, "idle", NoLoc) /\ crem' = [crem EXCEPT ![p] = @ + 1]
-  /\ UNCHANGED <<lpst, snap>>
+  /\ UNCHANGED <<lpst, snap, fneed>>
 CkptStep(r) ==
   /\ pc[r] = "ckpt"
   /\ LET p == loc[r].lp IN
      /\ Do(TW!CkptChecks(r, p, Len(hist[p]), 0), TW!Ckpt(r, p, Len(hist[p]), 0))
      /\ snap' = [snap EXCEPT ![p] = Append(@, lpst[p])]
   /\ Goto(r, "idle", NoLoc)
-  /\ UNCHANGED <<lpst, crem>>
-
-(* ---------------- scheduling of the steps ---------------- *)
-\* steps that touch memory shared with other threads: the CAS push, the exchange, the fetch_adds
-SharedPc == {"push", "rbins", "flag"}
-IsShared(r) == pc[r] \in SharedPc \/ (pc[r] = "idle" /\ TW!InboxOf(r) # {}) \/ (pc[r] = "rbloop" /\ loc[r].i <= Len(hist[loc[r].lp]))
-                \/ pc[r] = "init"
-StepOf(r) ==
-  \/ InitStart(r) \/ InitLp(r) \/ InitDone(r) \/ SchedAlloc(r) \/ SchedPush(r) \/ SchedSent(r) \/ SchedEnd(r) \/ DrainStep(r) \/ PopStep(r) \/ PopNone(r)
-  \/ FlagStep(r) \/ FreeStep(r) \/ RbBeginStep(r) \/ RbEntry(r) \/ RbInsert(r) \/ RbRestore(r) \/ RbEndStep(r) \/ ExecStep(r) \/ ExecDone(r)
-  \/ CkptStep(r)
-Idle(r) == pc[r] = "idle" /\ TW!InboxOf(r) = {} /\ TW!HeapOf(r) = {}
-Private == {r \in ThreadsC : ~IsShared(r) /\ ~Idle(r) /\ ENABLED StepOf(r)}
-Next ==
-  /\ err = <<>>
-  /\ IF Private # {} THEN StepOf(TW!Min(Private)) ELSE \E r \in ThreadsC : StepOf(r)
-Spec == Init /\ [][Next]_vars
-
-(* ---------------- properties ---------------- *)
-NoCheckFails == err = <<>>
-Quiescent == \A r \in ThreadsC : Idle(r)
+  /\ UNCHANGED <<lpst, crem, fneed>>
 
 \* the sequential execution of the micro-model (reference), as a recursive computation
 PendInit == {[lp |-> InitEv[i].lp, t |-> InitEv[i].t, ty |-> InitEv[i].ty, pid |-> InitEv[i].pid, n |-> i] : i \in 1..Len(InitEv)}
@@ -283,10 +266,74 @@ SeqRun(pend, st, hs, n) ==
        SeqRun((pend \ {e}) \cup new, [st EXCEPT ![e.lp] = [s |-> tr.ns, cnt |-> @.cnt + 1]],
               [hs EXCEPT ![e.lp] = Append(@, [t |-> e.t, ty |-> e.ty, pid |-> e.pid, s |-> tr.ns])], n + Len(tr.sends))
 SeqHist == SeqRun(PendInit, [p \in LPs |-> [s |-> 0, cnt |-> 0]], [p \in LPs |-> <<>>], Len(InitEv))
+
+(* ---------------- GVT hand-over (abstract: any safe lower bound) and fossil collection ---------------- *)
+\* a GVT value reaches thread r between two events; all threads get the same value in a round (the algorithm that computes
+\* it is GvtRound.tla); here any value not above the true minimum of what is pending may be chosen
+GvtHorizon == 6   \* values beyond every timestamp of the micro-models behave alike
+GvtTick(r) ==
+  /\ MaxGvt > 0 /\ pc[r] = "idle" /\ hand[r] = 0 /\ gvtCnt[r] < MaxGvt
+  /\ \E g \in 1..(IF TW!PendingMin > GvtHorizon THEN GvtHorizon ELSE TW!PendingMin) :
+       /\ g > gvtSeen[r]
+       /\ IF gvtCnt[r] + 1 <= Len(gvtVals) THEN g = gvtVals[gvtCnt[r] + 1] ELSE g > TW!LastGvt
+       /\ Do(TW!GvtChecks(r, g), TW!Gvt(r, g))
+  /\ fneed' = [p \in LPs |-> IF OwnerOf[p] = r THEN TRUE ELSE fneed[p]]
+  /\ UNCHANGED <<pc, loc, lpst, snap, crem>>
+\* fossil_lp_collect: index arithmetic of src/gvt/fossil.c and model_allocator_fossil_lp_collect
+RECURSIVE LastBelow(_, _, _)
+LastBelow(p, i, g) == IF i = 0 THEN 0 ELSE IF hist[p][i].k = "e" /\ hist[p][i].t < g THEN i ELSE LastBelow(p, i - 1, g)
+FossilN(p, g) == LET n0 == LastBelow(p, Len(hist[p]), g)
+                     ok == {k \in 1..Len(ckpt[p]) : ckpt[p][k].ref <= n0} IN
+                 IF n0 = 0 \/ ok = {} THEN 0 ELSE ckpt[p][TW!Max(ok)].ref
+SeqMatches(p, es, from) ==
+  \A j \in 1..Len(es) : from + j <= Len(SeqHist[p]) /\ LET x == SeqHist[p][from + j] IN es[j].t = x.t /\ es[j].ty = x.ty /\ es[j].pid = x.pid /\ es[j].g.s = x.s
+FossilStep(r) ==
+  /\ pc[r] = "fossil"
+  /\ LET p == loc[r].lp
+         g == gvtSeen[r]
+         n == FossilN(p, g)
+         dropped == SubSeq(hist[p], 1, n)
+         tofree == SelectSeq(dropped, LAMBDA e : e.k # "s") IN
+     /\ IF n = 0
+        THEN UNCHANGED <<twvars, snap, err>>
+        ELSE /\ Do(TW!FossilChecks(r, p, g, n) \o << <<SeqMatches(p, TW!CommittedOf(p, n), cpos[p]), "C03", "committed history is not a prefix of the sequential history">> >>,
+                   TW!Fossil(r, p, g, n))
+             /\ snap' = [snap EXCEPT ![p] = SubSeq(@, Len(@) - Len(SelectSeq(ckpt[p], LAMBDA c : c.ref >= n)) + 1, Len(@))]
+     /\ fneed' = [fneed EXCEPT ![p] = FALSE]
+     /\ Goto(r, IF n = 0 THEN "flag" ELSE "ffree", [loc[r] EXCEPT !.fl = [i \in 1..Len(tofree) |-> tofree[i].m]])
+  /\ UNCHANGED <<lpst, crem>>
+FossilFree(r) ==
+  /\ pc[r] = "ffree"
+  /\ IF loc[r].fl = <<>>
+     THEN Goto(r, "flag", loc[r]) /\ UNCHANGED <<twvars, err>>
+     ELSE Do(TW!FreeChecks(r, Head(loc[r].fl)), TW!Free(r, Head(loc[r].fl))) /\ Goto(r, "ffree", [loc[r] EXCEPT !.fl = Tail(@)])
+  /\ UNCHANGED <<lpst, snap, crem, fneed>>
+
+(* ---------------- scheduling of the steps ---------------- *)
+\* steps that touch memory shared with other threads: the CAS push, the exchange, the fetch_adds
+SharedPc == {"push", "rbins", "flag"}
+IsShared(r) == pc[r] \in SharedPc \/ (pc[r] = "idle" /\ TW!InboxOf(r) # {}) \/ (pc[r] = "rbloop" /\ loc[r].i <= Len(hist[loc[r].lp]))
+                \/ pc[r] = "init"
+StepOf(r) ==
+  \/ InitStart(r) \/ InitLp(r) \/ InitDone(r) \/ SchedAlloc(r) \/ SchedPush(r) \/ SchedSent(r) \/ SchedEnd(r) \/ DrainStep(r) \/ PopStep(r) \/ PopNone(r)
+  \/ FlagStep(r) \/ FreeStep(r) \/ RbBeginStep(r) \/ RbEntry(r) \/ RbInsert(r) \/ RbRestore(r) \/ RbEndStep(r) \/ ExecStep(r) \/ ExecDone(r)
+  \/ CkptStep(r) \/ FossilStep(r) \/ FossilFree(r)
+Idle(r) == pc[r] = "idle" /\ TW!InboxOf(r) = {} /\ TW!HeapOf(r) = {}
+Private == {r \in ThreadsC : ~IsShared(r) /\ ~Idle(r) /\ ENABLED StepOf(r)}
+Next ==
+  /\ err = <<>>
+  /\ IF Private # {} THEN StepOf(TW!Min(Private)) ELSE \E r \in ThreadsC : StepOf(r) \/ GvtTick(r)
+Spec == Init /\ [][Next]_vars
+
+(* ---------------- properties ---------------- *)
+NoCheckFails == err = <<>>
+Quiescent == \A r \in ThreadsC : Idle(r)
+
 ParHist(p) == LET es == SelectSeq(hist[p], LAMBDA e : e.k = "e" /\ e.ty # 65534) IN
               [i \in 1..Len(es) |-> [t |-> es[i].t, ty |-> es[i].ty, pid |-> es[i].pid, s |-> es[i].g.s]]
 \* C01: at quiescence every LP has processed exactly the sequential history, with the same states
-C01_FinalEqualsSequential == Quiescent => \A p \in LPs : ParHist(p) = SeqHist[p]
+\* (events released by fossil collection were compared with the sequential history when they were released)
+C01_FinalEqualsSequential == Quiescent => \A p \in LPs : cpos[p] <= Len(SeqHist[p]) /\ ParHist(p) = SubSeq(SeqHist[p], cpos[p] + 1, Len(SeqHist[p]))
 \* C06: at quiescence every live buffer is a valid processed event (nothing cancelled is left, nothing is lost)
 C06_NothingLeft == Quiescent => \A m \in DOMAIN msg : TW!InHistE(m) /\ ~TW!HasAnti(msg[m].flags)
 =============================================================================
